@@ -1,5 +1,5 @@
 (* C18 model: renaming of the variables (and any rewriting of the labels) of a program.
-   r renames variables: EName x, the `as` name of a with statement; lab k rewrites the printing
+   r renames variables: EName x, the `as` name of a with statement / an except clause; lab k rewrites the printing
    payload of a node of class k (operator / attribute name, the variable bound by an assignment
    expression, the parameter list of a lambda) -- a consistent renaming takes lab KNamedExpr = r.
    Temporaries (ETmp) are not variables of the program and are left alone.
@@ -51,7 +51,18 @@ Section Rename.
     | SWhile e b1 b2 => SWhile (ren_expr e) (blk b1) (blk b2)
     | SFor t e b1 b2 => SFor (ren_expr t) (ren_expr e) (blk b1) (blk b2)
     | SWith e v b => SWith (ren_expr e) (option_map r v) (blk b)
+    | STry b hs o f =>
+        STry (blk b)
+             ((fix goh (hs : list handler) : list handler :=
+                 match hs with
+                 | [] => []
+                 | (t, v, hb) :: rest => (option_map ren_expr t, option_map r v, blk hb) :: goh rest
+                 end) hs)
+             (blk o) (blk f)
     end.
 
   Definition ren_block (b : list stmt) : list stmt := map ren_stmt b.
+  Definition ren_handler (h : handler) : handler :=
+    match h with (t, v, hb) => (option_map ren_expr t, option_map r v, ren_block hb) end.
+  Definition ren_handlers (hs : list handler) : list handler := map ren_handler hs.
 End Rename.
